@@ -318,7 +318,20 @@ class Loop:
         # parameters -- that is the simulator's behaviour and the closed loop below is judged with it (no exception here).
         self.p_order_mismatch = list(self.model["p_defaults"].keys()) != [self.model["p"][i].name() for i in range(self.model["p"].shape[0])]
         self.xi = self.model["x_index"]
-        self.C = extract_sim_constants(self.model["p_defaults"])
+        self.script_drift = None
+        try:
+            self.C = extract_sim_constants(self.model["p_defaults"])
+        except MachineryError as ex:
+            # the script was restructured beyond what the static reader understands (renamed locals, gains moved into a
+            # table, another tick layout).  That is not a verdict and not a broken tool: the loop is closed with the gains
+            # and the wiring pinned from the reference tree (harness/cascade_pinned.json) and the difference is reported
+            # as SPEC-DRIFT by the check.
+            pinned = os.path.join(os.path.dirname(os.path.abspath(__file__)), "cascade_pinned.json")
+            if not os.path.exists(pinned):
+                raise
+            raw = json.load(open(pinned))
+            self.C = {k: (np.asarray(v, float) if isinstance(v, list) else v) for k, v in raw.items()}
+            self.script_drift = str(ex)
         self.cst_idx, parts, k0 = {}, [], 0
         for name in ("input_aetr", "k_p_att", "thrust_trim", "kp", "ki", "kd", "f_cut", "i_max", "F_max", "l", "CM", "CT"):
             v = np.atleast_1d(np.asarray(self.C[name], float)).flatten()
